@@ -1397,6 +1397,14 @@ func runReplayCmd(args []string) {
 	o := outs["c0"]
 	why, ok := confirmCE(&ce, o)
 	fmt.Printf("replay of %s %s %s with inputs %v\n  engine: %s\n  native: %s\n", ce.Entry, ce.Kind, ce.ID, ce.Inputs, ce.Msg, why)
+	if o != nil {
+		for _, e := range o.Events {
+			fmt.Printf("    native event: %s %s = %s\n", e.Kind, e.ID, trunc(e.Val, 200))
+		}
+		if o.Panic != "" || o.Dead || len(o.Missing) > 0 {
+			fmt.Printf("    native panic=%q dead=%v missing=%v\n", o.Panic, o.Dead, o.Missing)
+		}
+	}
 	if o != nil && o.Stack != "" {
 		fmt.Println(trunc(o.Stack, 3000))
 	}
